@@ -50,6 +50,13 @@ def build_types(w, rng, ntypes, depth):
             u = ["gen", t[1], [g.cls() if rng.random() < 0.5 else a for a in t[2]]]
             if u not in tys:
                 tys.append(u)
+        if t[0] == "fdep" and len(t[2]) >= 2:
+            # the same check with the wildcard (Any) in other places: one wildcard against none, crossing wildcards
+            a, b2 = (t[2][0] if t[2][0] is not None else 0), (t[2][1] if t[2][1] is not None else 1)
+            for ps in ([a, None], [None, b2], [a, b2], [None, None]):
+                u = ["fdep", t[1], ps + list(t[2][2:]), t[3]]
+                if u not in tys and rng.random() < 0.7:
+                    tys.append(u)
         if t[0] == "gen" and t[1] in g.generic_user:
             # an alias of a related origin (a generic class deriving from / derived by this one), with the same or
             # with perturbed arguments, and the bare related origin
@@ -62,7 +69,7 @@ def build_types(w, rng, ntypes, depth):
     for c in rng.sample(range(w.n), min(3, w.n)):
         if ["cls", c] not in tys:
             tys.append(["cls", c])
-    return tys[:24]
+    return tys[:26]
 
 
 def _first_nondown(t):
